@@ -366,7 +366,11 @@ func without(idx []int, drop []int) []int {
 	return out
 }
 
+var stampRe = regexp.MustCompile(`(?m)^\d{4}/\d\d/\d\d \d\d:\d\d:\d\d `)
+
+// trunc also drops the log time stamps of gombok's diagnostics (evidence must not depend on the clock).
 func trunc(s string, n int) string {
+	s = stampRe.ReplaceAllString(s, "")
 	if len(s) > n {
 		return s[:n] + "\n... (truncated)"
 	}
